@@ -160,6 +160,35 @@ func c03RunBytes(r *core.Run) {
 	if r.Thorough() {
 		step = 1
 	}
+	// literal bodies: every sequence of escape-like fragments inside the quote syntaxes
+	frags := []string{`\\`, "'", `"`, "`", "a", "u", "/", "n", "0041", "D83D", "DE00", "d83d", "é", "\n", "{", "[", ":", ",", "1", "\\u", "\\ud83d", "\\ude0"}
+	maxF := 3
+	if r.Thorough() {
+		maxF = 4
+	}
+	wraps := [][2]string{{"'", "'"}, {`"`, `"`}, {"`", "`"}, {"`\"", "\"`"}, {"a.\"", "\""}, {"{\"", "\": a}"}}
+	m := 0
+	var body func(s string, l int)
+	body = func(s string, l int) {
+		m++
+		if r.Mine(m) && !r.Expired() {
+			for _, w := range wraps {
+				e := w[0] + s + w[1]
+				r.Add("states", 1)
+				r.Begin(map[string]any{"expr": e, "doc": ""})
+				if v := c03Expr(r, e, "literal-bodies", raws[:1], texts[:1]); v != nil {
+					r.Violate(v)
+				}
+			}
+		}
+		if l == maxF {
+			return
+		}
+		for _, f := range frags {
+			body(s+f, l+1)
+		}
+	}
+	body("", 0)
 	for bi, e := range bases {
 		if !r.Mine(bi) {
 			continue
@@ -174,6 +203,7 @@ func c03RunBytes(r *core.Run) {
 				r.Violate(v)
 			}
 		}
+		try(e) // the unedited expression itself
 		for i := 0; i <= len(e); i++ {
 			if i < len(e) {
 				try(e[:i] + e[i+1:]) // delete
